@@ -22,18 +22,16 @@ open Pandora.Model.C13 Pandora.Proofs.C13
 /-- a provider run ended by plain return: end of data, or an error value -/
 def Returned (r : Run) : Prop := r.end_ = .ok ∨ ∃ c, r.end_ = .err c
 
-/-- `good` is a complete well-formed piece of a size-prefixed file: decoded alone it ends at the end of data
+/-- the same for a grpc/json run -/
+def GReturned (r : GRun) : Prop := r.end_ = .ok ∨ ∃ c, r.end_ = .err c
+
+/-- `good` is a complete well-formed piece of a raw file: decoded alone it ends at the end of data
 and leaves no unread bytes (its last entry is complete and its last line is terminated) -/
 def WellFormed (run : Bytes → Run) (good : Bytes) : Prop := (run good).end_ = .ok ∧ (run good).rest = []
 
-theorem clean_returned {r : Run} (h : End.clean r.end_) : Returned r := by
-  unfold Returned
-  cases he : r.end_ with
-  | ok => left; rfl
-  | err c => right; exact ⟨c, rfl⟩
-  | panic => rw [he] at h; exact absurd h (by simp [End.clean])
-  | fatal => rw [he] at h; exact absurd h (by simp [End.clean])
-  | fuel => rw [he] at h; exact absurd h (by simp [End.clean])
+/-- `good` is a well-formed piece of a uripost file: decoded alone it ends at the end of data, and it is empty or ends
+with a newline (the uripost decoder also decodes a last line without newline, which more bytes would lengthen) -/
+def WellFormedU (run : Bytes → Run) (good : Bytes) : Prop := (run good).end_ = .ok ∧ Terminated good
 
 /-! ## never panics -/
 
@@ -107,35 +105,17 @@ theorem C13_terminates_step (fixed : Bool) (urlOk : Bytes → Bool) (s : Bytes) 
 
 /-! ## prefix preserved -/
 
-theorem uripostRun_append (fixed : Bool) (urlOk : Bytes → Bool) (good junk : Bytes)
-    (h : WellFormed (uripostRun fixed urlOk) good) :
-    uripostRun fixed urlOk (good ++ junk) =
-      (uripostRun fixed urlOk junk).prepend (uripostRun fixed urlOk good).entries := by
-  have := runSteps_append (uripostStep fixed urlOk) (uripostStep_decreases fixed urlOk) (uripostStep_fail_bad fixed urlOk)
-    (uripostStep_appendOk fixed urlOk) junk (good.length + 1) good (by omega) h.1 h.2
-  unfold uripostRun
-  have e : (good ++ junk).length + 1 = good.length + 1 + junk.length := by simp; omega
-  rw [e]; exact this
-
 /-- uripost: whatever follows a well-formed piece of file - garbage, a negative size, a truncated entry, nothing -
 the entries of the well-formed piece are delivered unchanged and first; the rest is decoded as if it stood alone -/
 theorem C13_prefix_preserved_uripost (fixed : Bool) (urlOk : Bytes → Bool) (good junk : Bytes)
-    (h : WellFormed (uripostRun fixed urlOk) good) :
+    (h : WellFormedU (uripostRun fixed urlOk) good) :
     (uripostRun fixed urlOk (good ++ junk)).entries =
       (uripostRun fixed urlOk good).entries ++ (uripostRun fixed urlOk junk).entries := by
-  rw [uripostRun_append fixed urlOk good junk h]; rfl
-
-theorem rawRun_append (fixed : Bool) (good junk : Bytes) (h : WellFormed (rawRun fixed) good) :
-    rawRun fixed (good ++ junk) = (rawRun fixed junk).prepend (rawRun fixed good).entries := by
-  have := runSteps_append (rawStep fixed) (rawStep_decreases fixed) (rawStep_fail_bad fixed)
-    (rawStep_appendOk fixed) junk (good.length + 1) good (by omega) h.1 h.2
-  unfold rawRun
-  have e : (good ++ junk).length + 1 = good.length + 1 + junk.length := by simp; omega
-  rw [e]; exact this
+  rw [uripostRun_append fixed urlOk good junk h.1 h.2]; rfl
 
 theorem C13_prefix_preserved_raw (fixed : Bool) (good junk : Bytes) (h : WellFormed (rawRun fixed) good) :
     (rawRun fixed (good ++ junk)).entries = (rawRun fixed good).entries ++ (rawRun fixed junk).entries := by
-  rw [rawRun_append fixed good junk h]; rfl
+  rw [rawRun_append fixed good junk h.1 h.2]; rfl
 
 /-- uri: `good` is a block of complete lines (the `\n` after it is written explicitly) that decodes cleanly -/
 theorem C13_prefix_preserved_uri (urlOk : Bytes → Bool) (good junk : Bytes) (h : (uriRun urlOk good).end_ = .ok) :
@@ -173,12 +153,12 @@ theorem C13_rejected_oversize (size : Int) (rest : Bytes) (h : size > rest.lengt
 /-- uripost: if the first thing after a well-formed piece is something the decoder refuses, the run delivers exactly
 the well-formed entries and ends with that refusal, which is an error value -/
 theorem C13_rejected_uripost (urlOk : Bytes → Bool) (good junk : Bytes) (e : End)
-    (h : WellFormed (uripostRun true urlOk) good) (hj : uripostStep true urlOk junk = .fail e) :
+    (h : WellFormedU (uripostRun true urlOk) good) (hj : uripostStep true urlOk junk = .fail e) :
     uripostRun true urlOk (good ++ junk) = ⟨(uripostRun true urlOk good).entries, e, junk⟩ ∧ ∃ c, e = .err c := by
   constructor
   · have hjr : uripostRun true urlOk junk = ⟨[], e, junk⟩ := by
       unfold uripostRun; rw [runSteps]; simp [hj]
-    rw [uripostRun_append true urlOk good junk h, hjr]
+    rw [uripostRun_append true urlOk good junk h.1 h.2, hjr]
     simp [Run.prepend]
   · have := uripostStep_clean urlOk junk
     rw [hj] at this
@@ -191,7 +171,7 @@ theorem C13_rejected_raw (good junk : Bytes) (e : End)
   constructor
   · have hjr : rawRun true junk = ⟨[], e, junk⟩ := by
       unfold rawRun; rw [runSteps]; simp [hj]
-    rw [rawRun_append true good junk h, hjr]
+    rw [rawRun_append true good junk h.1 h.2, hjr]
     simp [Run.prepend]
   · have := rawStep_clean junk
     rw [hj] at this
@@ -205,10 +185,14 @@ theorem C13_rejected_uripost_negative_line (urlOk : Bytes → Bool) (line rest :
     uripostLine true urlOk line rest = .fail (.err "size") := by
   unfold uripostLine
   simp only [hne, Bool.false_eq_true, if_false, hb]
+  -- (`simp only` has already chosen the `.ok _` arm: the literal arm `.ok 91` is excluded by `hb'`)
   split
-  · rename_i heq; simp at heq; exact absurd heq hb'
-  · simp [hd, hu, C13_rejected_negative_size size rest hneg, endOfRes]
-  · rename_i h1 h2; exact absurd rfl (h2 b)
+  · rename_i sz u t heq
+    rw [hd] at heq
+    simp only [Res.ok.injEq, Prod.mk.injEq] at heq
+    obtain ⟨rfl, rfl, rfl⟩ := heq
+    simp [hu, C13_rejected_negative_size size rest hneg, endOfRes]
+  · rename_i h2; exact absurd hd (h2 size uri tag)
 
 /-- a header line that does not end with `]` is an error -/
 theorem C13_rejected_header_no_bracket (h : Bytes) (hl : 3 ≤ h.length)
@@ -350,7 +334,7 @@ open Ex
 
 /- the well-formed piece is well-formed, and each kind of junk is refused: the hypotheses of
 `C13_rejected_uripost` / `C13_prefix_preserved_uripost` are met by real files -/
-example : WellFormed (uripostRun true anyUrl) good1 := by unfold WellFormed; decide
+example : WellFormedU (uripostRun true anyUrl) good1 := ⟨by decide, .inr (by decide)⟩
 example : uripostStep true anyUrl junkNeg = .fail (.err "size") := by decide
 example : uripostStep true anyUrl junkTrunc = .fail (.err "trunc") := by decide
 example : uripostStep true anyUrl junkHdr = .fail (.err "hdr") := by decide
@@ -400,5 +384,298 @@ theorem C13_unrepaired_randInt_equal_panics : (randInt false 5 5 0).isPanic = tr
 /-- the tree as found: a config without `pools`, or with a scalar among the pools, panics in a type assertion -/
 theorem C13_unrepaired_readConfig_panics :
     (massagePools false .absent).isPanic = true ∧ (massagePools false (.list [.mapping false, .other])).isPanic = true := by decide
+
+/-! ## grpc/json lines, scenario weights, randString -/
+
+/-- grpc/json files: every byte string, every jsoniter oracle, with and without `continue_on_error` -/
+theorem C13_no_panic_grpcjson (coe : Bool) (json : Bytes → Option Bytes) (s : Bytes) : GReturned (grpcRun coe json s) := by
+  have h := grpcLines_end_clean coe json (rawLines s)
+  unfold GReturned grpcRun
+  cases he : (grpcLines coe json (rawLines s)).end_ with
+  | ok => left; rfl
+  | err c => right; exact ⟨c, rfl⟩
+  | panic => rw [he] at h; exact absurd h (by simp [End.clean])
+  | fatal => rw [he] at h; exact absurd h (by simp [End.clean])
+  | fuel => rw [he] at h; exact absurd h (by simp [End.clean])
+
+/-- grpc/json: lines the loop got through, then a line jsoniter refuses. Without `continue_on_error` the run delivers the
+entries of the lines before it and ends with an error; with it the line is delivered as an invalidated ammo (which the
+gun skips) and the following lines are decoded as if the bad line were not there -/
+theorem C13_rejected_or_skipped_grpcjson (json : Bytes → Option Bytes) (pre : List Bytes) (bad : Bytes) (post : List Bytes)
+    (hshort : bad.length < maxToken) (hbad : json (dropCR bad) = none) :
+    ((grpcLines false json pre).end_ = .ok →
+      grpcLines false json (pre ++ bad :: post) = ⟨(grpcLines false json pre).entries, .err "other"⟩) ∧
+    ((grpcLines true json pre).end_ = .ok →
+      grpcLines true json (pre ++ bad :: post) =
+        (grpcLines true json post).prepend ((grpcLines true json pre).entries ++ [.invalid])) := by
+  have hns : ¬ bad.length ≥ maxToken := by omega
+  constructor
+  · intro h
+    rw [grpcLines_append false json pre _ h, grpcLines]
+    simp [hns, hbad, GRun.prepend]
+  · intro h
+    rw [grpcLines_append true json pre _ h, grpcLines]
+    simp [hns, hbad, GRun.prepend, GRun.cons]
+
+/-- grpc/json: a line that does not fit the scanner's buffer ends the run with an error after the lines before it -/
+theorem C13_rejected_grpcjson_token_too_long (coe : Bool) (json : Bytes → Option Bytes) (pre : List Bytes) (bad : Bytes)
+    (post : List Bytes) (hlong : bad.length ≥ maxToken) (h : (grpcLines coe json pre).end_ = .ok) :
+    grpcLines coe json (pre ++ bad :: post) = ⟨(grpcLines coe json pre).entries, .err "toolong"⟩ := by
+  rw [grpcLines_append coe json pre _ h, grpcLines]
+  simp [hlong, GRun.prepend]
+
+/-- uri files: a block of lines that decodes cleanly, then a refused line (broken header, url.Parse error): the block's
+entries are delivered and the run ends with that refusal, which is an error value -/
+theorem C13_rejected_uri (urlOk : Bytes → Bool) (pre : List Bytes) (bad : Bytes) (post : List Bytes) (e : End)
+    (hpre : (uriLines urlOk pre).end_ = .ok) (hbad : uriLine urlOk bad = .fail e) :
+    uriLines urlOk (pre ++ bad :: post) = ⟨(uriLines urlOk pre).entries, e, []⟩ ∧ ∃ c, e = .err c := by
+  obtain ⟨h1, h2⟩ := uriLines_reject urlOk pre bad post e hpre hbad
+  refine ⟨h1, ?_⟩
+  cases e <;> simp [End.isErr] at h2
+  exact ⟨_, rfl⟩
+
+/-- scenario weights (`SpreadNames` + `decodeAmmo`, http and grpc): every list of weights whose announced number of copies
+fits in memory - an error, or one count ≥ 0 per scenario; in particular no division by zero and no negative `make` -/
+theorem C13_no_panic_spread (ws : List Int) (hmem : sumInt (ws.map normWeight) * 8 ≤ memCap) :
+    (spread true ws).returns = true := by
+  rcases spread_fixed ws hmem with h | ⟨cs, h, _⟩ <;> rw [h] <;> simp [Res.returns, Res.isPanic, Res.isFatal]
+
+theorem C13_rejected_negative_weight (ws : List Int) (w : Int) (hw : w ∈ ws) (hneg : w < 0) :
+    spread true ws = .err "weight" := spread_fixed_neg ws ⟨w, hw, hneg⟩
+
+/-- weights that are not negative: one count per scenario, none negative, together at most the announced total -/
+theorem C13_spread_counts (ws : List Int) (h : ∀ w ∈ ws, ¬ w < 0) :
+    ∃ cs, spreadCounts ws = .ok cs ∧ cs.length = ws.length ∧ (∀ c ∈ cs, 0 ≤ c) ∧ sumInt cs ≤ sumInt (ws.map normWeight) :=
+  spreadCounts_nonneg ws h
+
+/-- `randString(n, letters)`: every length that fits in memory - an error for a negative one, else that many letters -/
+theorem C13_no_panic_randString (n : Int) (hmem : n * 4 ≤ memCap) : (randStringLen true n).returns = true := by
+  rcases randStringLen_fixed n hmem with ⟨_, h⟩ | ⟨_, h⟩ | ⟨_, h⟩ <;> rw [h] <;> simp [Res.returns, Res.isPanic, Res.isFatal]
+
+theorem C13_rejected_negative_length (n : Int) (h : n < 0) : randStringLen true n = .err "length" := by
+  unfold randStringLen
+  have : n ≠ 0 := by omega
+  simp [this, h]
+
+/-- every letter of the result is taken from inside the letter set (`Intn` of a positive number, index in range) -/
+theorem C13_no_panic_pickLetter (nLetters rnd : Nat) : ∃ i, pickLetter nLetters rnd = .ok i := pickLetter_returns nLetters rnd
+
+/-- an empty list item in a scenario file, wherever it stands: provider construction returns (an error where a plugin was
+expected), and no nil plugin is left behind for the provider or the gun to call -/
+theorem C13_no_panic_nullItem (site : NullSite) : (nullItem true site).returns = true ∧ nilPluginLeft true site = false := by
+  cases site <;> decide
+
+theorem C13_rejected_empty_plugin_item :
+    nullItem true .variableSource = .err "empty-item" ∧ nullItem true .postprocessor = .err "empty-item" ∧
+    nullItem true .grpcPreprocessor = .err "empty-item" := by decide
+
+/-- the loop of `math.GCD` ends: `a + b` steps are enough whatever the weights -/
+theorem C13_terminates_gcd (a b : Int) (k : Nat) : gcdGo (a.toNat + b.toNat + 1 + k) a b = gcd64 a b := by
+  induction k with
+  | zero => rfl
+  | succ k ih => rw [← Nat.add_assoc, gcdGo_fuel _ a b (by omega), ih]
+
+/-- grpc/json provider, end of a pass: the repaired loop goes round again only when the pass has delivered something,
+so every pass of an endless run makes progress through the sink (where cancellation is observed) -/
+theorem C13_terminates_grpcjson_pass (limit passes passNum ammoNum : Nat) (scanErr : Bool)
+    (h : grpcPassEnd true limit passes passNum ammoNum scanErr = .again) : 0 < ammoNum := by
+  unfold grpcPassEnd at h
+  split at h
+  · simp at h
+  · split at h
+    · simp at h
+    · split at h
+      · simp at h
+      · split at h
+        · simp at h
+        · rename_i hz
+          simp at hz
+          omega
+
+/-! ## the property, component by component
+
+`C13_no_panic_statement fixed` etc. collect the universally quantified statements for the code variant `fixed`;
+they hold for the repaired code and are refuted for the tree as found. -/
+
+/-- nothing panics or dies, on any input -/
+def C13_no_panic_statement (fixed : Bool) : Prop :=
+  (∀ (urlOk : Bytes → Bool) (s : Bytes), Returned (uripostRun fixed urlOk s)) ∧
+  (∀ s : Bytes, Returned (rawRun fixed s)) ∧
+  (∀ (known : Bytes → Bool) (reqs : List Bytes), (expand fixed known reqs).returns = true) ∧
+  (∀ (cur : List (Bytes × Val)) (path : Bytes) (st : IterState) (rnd : Nat), (getMapValue fixed cur path st rnd).1.returns = true) ∧
+  (∀ (env : Bytes → Option Bytes) (fileOf : Bytes → Option (List Bytes)) (s : Bytes), (resolveTags fixed env fileOf s).returns = true) ∧
+  (∀ (f t : Int) (rnd : Nat), (randInt fixed f t rnd).returns = true) ∧
+  (∀ p : PoolsVal, (massagePools fixed p).returns = true) ∧
+  (∀ ws : List Int, sumInt (ws.map normWeight) * 8 ≤ memCap → (spread fixed ws).returns = true) ∧
+  (∀ n : Int, n * 4 ≤ memCap → (randStringLen fixed n).returns = true) ∧
+  (∀ site : NullSite, (nullItem fixed site).returns = true ∧ nilPluginLeft fixed site = false)
+
+/-- the parts of the code that needed no repair -/
+def C13_no_panic_unchanged_statement : Prop :=
+  (∀ (urlOk : Bytes → Bool) (s : Bytes), Returned (uriRun urlOk s)) ∧
+  (∀ (coe : Bool) (json : Bytes → Option Bytes) (s : Bytes), GReturned (grpcRun coe json s)) ∧
+  (∀ h : Bytes, (decodeHeader h).returns = true) ∧
+  (∀ shoot : Bytes, (parseStringFunc shoot).returns = true) ∧
+  (∀ shoot : Bytes, (parseShootName shoot).returns = true) ∧
+  (∀ nLetters rnd : Nat, ∃ i, pickLetter nLetters rnd = .ok i)
+
+/-- C13, "never crashes the process with a panic": all byte strings as uripost / raw / uri / grpc-json files, all request
+lists, variable paths, placeholder strings, randInt / randString arguments, pools shapes and scenario weights -/
+theorem C13_no_panic : C13_no_panic_statement true ∧ C13_no_panic_unchanged_statement :=
+  ⟨⟨C13_no_panic_uripost, C13_no_panic_raw, C13_no_panic_expand, C13_no_panic_getMapValue, C13_no_panic_resolveTags,
+    C13_no_panic_randInt,
+    fun p => by obtain ⟨v, h⟩ := C13_no_panic_readConfig p; rw [h]; simp [Res.returns, Res.isPanic, Res.isFatal],
+    C13_no_panic_spread, C13_no_panic_randString, C13_no_panic_nullItem⟩,
+   ⟨C13_no_panic_uri, C13_no_panic_grpcjson, C13_no_panic_decodeHeader, C13_no_panic_parseStringFunc,
+    C13_no_panic_parseShootName, C13_no_panic_pickLetter⟩⟩
+
+/-- C13, "is rejected with an error, or skipped where continue-on-error is requested" -/
+def C13_rejected_or_skipped_statement : Prop :=
+  -- size-prefixed files: the refusal of what follows a well-formed piece ends the run with that error
+  (∀ (urlOk : Bytes → Bool) (good junk : Bytes) (e : End), WellFormedU (uripostRun true urlOk) good →
+    uripostStep true urlOk junk = .fail e →
+    uripostRun true urlOk (good ++ junk) = ⟨(uripostRun true urlOk good).entries, e, junk⟩ ∧ ∃ c, e = .err c) ∧
+  (∀ (good junk : Bytes) (e : End), WellFormed (rawRun true) good → rawStep true junk = .fail e →
+    rawRun true (good ++ junk) = ⟨(rawRun true good).entries, e, junk⟩ ∧ ∃ c, e = .err c) ∧
+  (∀ (urlOk : Bytes → Bool) (pre : List Bytes) (bad : Bytes) (post : List Bytes) (e : End),
+    (uriLines urlOk pre).end_ = .ok → uriLine urlOk bad = .fail e →
+    uriLines urlOk (pre ++ bad :: post) = ⟨(uriLines urlOk pre).entries, e, []⟩ ∧ ∃ c, e = .err c) ∧
+  -- negative and oversized announced sizes
+  (∀ (size : Int) (rest : Bytes), size < 0 → readBody true size rest = .err "size") ∧
+  (∀ (size : Int) (rest : Bytes), size > rest.length →
+    readBody true size rest = .err "trunc" ∨ readBody true size rest = .err "size") ∧
+  -- grpc/json: error, or skipped with continue_on_error
+  (∀ (json : Bytes → Option Bytes) (pre : List Bytes) (bad : Bytes) (post : List Bytes),
+    bad.length < maxToken → json (dropCR bad) = none →
+    ((grpcLines false json pre).end_ = .ok →
+      grpcLines false json (pre ++ bad :: post) = ⟨(grpcLines false json pre).entries, .err "other"⟩) ∧
+    ((grpcLines true json pre).end_ = .ok →
+      grpcLines true json (pre ++ bad :: post) =
+        (grpcLines true json post).prepend ((grpcLines true json pre).entries ++ [.invalid]))) ∧
+  -- scenario request lists
+  (∀ (known : Bytes → Bool) (sh : Bytes) (rest : List Bytes) (cnt sl : Int),
+    parseShootName sh = .ok ⟨sleepName, cnt, sl⟩ → expand true known (sh :: rest) = .err "leading-sleep") ∧
+  (∀ (known : Bytes → Bool) (pre : List Bytes) (sh : Bytes) (rest : List Bytes) (name : Bytes) (cnt sl : Int),
+    parseShootName sh = .ok ⟨name, cnt, sl⟩ → name ≠ sleepName → known name = false →
+    (expand true known (pre ++ sh :: rest)).isOk = false ∧ (expand true known (pre ++ sh :: rest)).returns = true) ∧
+  (∀ (known : Bytes → Bool) (pre : List Bytes) (sh : Bytes) (rest : List Bytes) (c : String),
+    parseShootName sh = .err c →
+    (expand true known (pre ++ sh :: rest)).isOk = false ∧ (expand true known (pre ++ sh :: rest)).returns = true) ∧
+  -- empty data source, placeholder without key, negative weight, negative length
+  (∀ (indexStr : Bytes) (next : Int) (rnd : Nat), ∃ c, calcIndex true indexStr 0 next rnd = .err c) ∧
+  (∀ (fileOf : Bytes → Option (List Bytes)) (inp : Bytes), cut inp 35 = none → propertyResolve true fileOf inp = .err "format") ∧
+  (∀ (ws : List Int) (w : Int), w ∈ ws → w < 0 → spread true ws = .err "weight") ∧
+  (∀ n : Int, n < 0 → randStringLen true n = .err "length")
+
+theorem C13_rejected_or_skipped : C13_rejected_or_skipped_statement :=
+  ⟨C13_rejected_uripost, C13_rejected_raw, C13_rejected_uri, C13_rejected_negative_size, C13_rejected_oversize,
+   C13_rejected_or_skipped_grpcjson, C13_rejected_leading_sleep, C13_rejected_unknown_request, C13_rejected_bad_shoot,
+   C13_rejected_empty_source, C13_rejected_property_no_hash, C13_rejected_negative_weight, C13_rejected_negative_length⟩
+
+/-- C13, "never alters how well-formed entries before it are delivered" (both code variants of the size-prefixed decoders) -/
+def C13_prefix_preserved_statement (fixed : Bool) : Prop :=
+  (∀ (urlOk : Bytes → Bool) (good junk : Bytes), WellFormedU (uripostRun fixed urlOk) good →
+    (uripostRun fixed urlOk (good ++ junk)).entries =
+      (uripostRun fixed urlOk good).entries ++ (uripostRun fixed urlOk junk).entries) ∧
+  (∀ (good junk : Bytes), WellFormed (rawRun fixed) good →
+    (rawRun fixed (good ++ junk)).entries = (rawRun fixed good).entries ++ (rawRun fixed junk).entries) ∧
+  (∀ (urlOk : Bytes → Bool) (good junk : Bytes), (uriRun urlOk good).end_ = .ok →
+    uriRun urlOk (good ++ 10 :: junk) = (uriRun urlOk junk).prepend (uriRun urlOk good).entries) ∧
+  (∀ (coe : Bool) (json : Bytes → Option Bytes) (l1 l2 : List Bytes), (grpcLines coe json l1).end_ = .ok →
+    grpcLines coe json (l1 ++ l2) = (grpcLines coe json l2).prepend (grpcLines coe json l1).entries)
+
+theorem C13_prefix_preserved (fixed : Bool) : C13_prefix_preserved_statement fixed :=
+  ⟨C13_prefix_preserved_uripost fixed, C13_prefix_preserved_raw fixed, C13_prefix_preserved_uri, grpcLines_append⟩
+
+/-- C13, "never makes a provider loop or block forever": the decoding loops stop on every input (measure: unread bytes),
+the GCD loop stops, and a grpc/json pass that delivered nothing is not repeated -/
+def C13_terminates_statement (fixed : Bool) : Prop :=
+  (∀ (urlOk : Bytes → Bool) (s : Bytes), (uripostRun fixed urlOk s).end_ ≠ .fuel) ∧
+  (∀ s : Bytes, (rawRun fixed s).end_ ≠ .fuel) ∧
+  (∀ (urlOk : Bytes → Bool) (s : Bytes), Step.decreases s (uripostStep fixed urlOk s) ∧ Step.decreases s (rawStep fixed s)) ∧
+  (∀ (a b : Int) (k : Nat), gcdGo (a.toNat + b.toNat + 1 + k) a b = gcd64 a b) ∧
+  (∀ (limit passes passNum ammoNum : Nat) (scanErr : Bool),
+    grpcPassEnd fixed limit passes passNum ammoNum scanErr = .again → 0 < ammoNum)
+
+theorem C13_terminates : C13_terminates_statement true :=
+  ⟨C13_terminates_uripost true, C13_terminates_raw true, C13_terminates_step true, C13_terminates_gcd,
+   C13_terminates_grpcjson_pass⟩
+
+/-! ## the tree as found: each repaired statement is refuted for the variant `fixed := false` -/
+
+namespace Ex
+/-- `{"tag":"t"}`-like lines are whatever the oracle says; here: lines starting with `{` are accepted -/
+def jsonBrace : Bytes → Option Bytes := fun l => match l with | 123 :: _ => some [116] | _ => none
+/-- `{}` -/
+def jl : Bytes := [123, 125]
+/-- `oops` -/
+def jbad : Bytes := [111, 111, 112, 115]
+end Ex
+
+example : grpcRun false jsonBrace (jl ++ 10 :: jbad ++ 10 :: jl) = ⟨[.valid [116]], .err "other"⟩ := by decide
+example : grpcRun true jsonBrace (jl ++ 10 :: jbad ++ 10 :: jl ++ [13, 10]) = ⟨[.valid [116], .invalid, .valid [116]], .ok⟩ := by decide
+example : spread true [6, 9, 0] = .ok [6, 9, 1] := by decide
+example : spread true [4, 6, 10, 8] = .ok [2, 3, 5, 4] := by decide
+example : spread true [-5, 1] = .err "weight" := by decide
+example : randStringLen true (-1) = .err "length" ∧ randStringLen true 0 = .ok 1 ∧ randStringLen true 12 = .ok 12 := by decide
+example : sumInt ([6, 9, 0].map normWeight) * 8 ≤ memCap := by decide
+example : uriLine anyUrl [91, 98, 114, 111, 107, 101, 110] = .fail (.err "hdr") := by decide
+example : grpcPassEnd true 0 0 1 3 false = .again := by decide
+/-- an unterminated last line of a uripost file is decoded: `0 /b t2` -/
+example : uripostRun true anyUrl [48, 32, 47, 98, 32, 116, 50] = ⟨[⟨[116, 50], [47, 98], []⟩], .ok, []⟩ := by decide
+
+theorem C13_no_panic_uripost_counterexample : ¬ ∀ (urlOk : Bytes → Bool) (s : Bytes), Returned (uripostRun false urlOk s) := by
+  intro h
+  have hp : (uripostRun false anyUrl negOnly).end_ = .panic := by decide
+  rcases h anyUrl negOnly with h | ⟨c, h⟩ <;> rw [hp] at h <;> cases h
+
+theorem C13_no_panic_raw_counterexample : ¬ ∀ s : Bytes, Returned (rawRun false s) := by
+  intro h
+  have hp : (rawRun false rawNeg).end_ = .panic := by decide
+  rcases h rawNeg with h | ⟨c, h⟩ <;> rw [hp] at h <;> cases h
+
+theorem C13_no_panic_expand_counterexample :
+    ¬ ∀ (known : Bytes → Bool) (reqs : List Bytes), (expand false known reqs).returns = true := by
+  intro h; have := h knownR1 [sleep10, r1]; revert this; decide
+
+theorem C13_no_panic_getMapValue_counterexample :
+    ¬ ∀ (cur : List (Bytes × Val)) (path : Bytes) (st : IterState) (rnd : Nat), (getMapValue false cur path st rnd).1.returns = true := by
+  intro h; have := h emptySource pathNext [] 0; revert this; decide
+
+theorem C13_no_panic_resolveTags_counterexample :
+    ¬ ∀ (env : Bytes → Option Bytes) (fileOf : Bytes → Option (List Bytes)) (s : Bytes), (resolveTags false env fileOf s).returns = true := by
+  intro h; have := h (fun _ => none) (fun _ => none) tagProp; revert this; decide
+
+theorem C13_no_panic_randInt_counterexample : ¬ ∀ (f t : Int) (rnd : Nat), (randInt false f t rnd).returns = true := by
+  intro h; have := h 5 5 0; revert this; decide
+
+theorem C13_no_panic_readConfig_counterexample : ¬ ∀ p : PoolsVal, (massagePools false p).returns = true := by
+  intro h; have := h .absent; revert this; decide
+
+/-- two scenarios with weights -5 and 1: `make([]*Scenario, 0, -4)` -/
+theorem C13_no_panic_spread_counterexample :
+    ¬ ∀ ws : List Int, sumInt (ws.map normWeight) * 8 ≤ memCap → (spread false ws).returns = true := by
+  intro h; have := h [-5, 1] (by decide); revert this; decide
+
+/-- `randString(-1)`: `make([]rune, -1)` -/
+theorem C13_no_panic_randString_counterexample : ¬ ∀ n : Int, n * 4 ≤ memCap → (randStringLen false n).returns = true := by
+  intro h; have := h (-1) (by decide); revert this; decide
+
+/-- `variable_sources: [null]`: `source.Init()` on a nil interface; `postprocessors: [null]`: a nil plugin is left for the gun -/
+theorem C13_no_panic_nullItem_counterexample :
+    ¬ ∀ site : NullSite, (nullItem false site).returns = true ∧ nilPluginLeft false site = false := by
+  intro h; have := h .variableSource; revert this; decide
+
+theorem C13_nil_plugin_left_counterexample : nilPluginLeft false .postprocessor = true ∧ nilPluginLeft false .grpcPreprocessor = true := by
+  decide
+
+theorem C13_no_panic_counterexample : ¬ C13_no_panic_statement false :=
+  fun h => C13_no_panic_uripost_counterexample h.1
+
+/-- the tree as found: a pass over an empty grpc/json file with `passes: 0` is repeated without having delivered anything -/
+theorem C13_terminates_counterexample : ¬ C13_terminates_statement false := by
+  intro h
+  have := h.2.2.2.2 0 0 1 0 false (by decide)
+  omega
 
 end Pandora.Props.C13
